@@ -22,7 +22,9 @@ def lemmas():
 
 
 def run(rep):
-    run_property(rep, KEYS, hooks=CS.HOOKS, lemmas=lemmas, explanation=(
+    run_property(rep, KEYS, hooks=CS.HOOKS, lemmas=lemmas, more=[(["Reaction.reverse_id@getter"], c01_lp.GETTER_HOOKS)], explanation=(
+        "Reaction.reverse_id (an assumed contract until round 5) is proved against its body: '_'.join((id, 'reverse', "
+        "md5(id utf-8).hexdigest()[0:5])) of the CURRENT id, the documented shape (md5 / join uninterpreted). "
         "Deductive (cobrapy's own part): slim_optimize is proved to return the objective value exactly when the status is optimal and "
         "otherwise the caller's error value, or - with error_value=None - to raise the exception class OPTLANG_TO_EXCEPTIONS_DICT "
         "assigns to the status; check_solver_status and assert_optimal are proved against their decision tables; Model.optimize is "
@@ -33,6 +35,7 @@ def run(rep):
         "reduced-cost identity from the assumed KKT contract of the solver. That GLPK's optimal is a true optimum and that its duals "
         "certify it is NOT proved: bounded driver against an exact rational LP oracle with duality certificate on generated models."),
         trusted=["optlang/GLPK optimize() (assumed contract, monitored by the bounded tier)",
+                 "hashlib.md5(..).hexdigest()[0:5] and str.join as uninterpreted functions of their string arguments (reverse_id)",
                  "get_solution raising behaviour as seen by optimize (follows check_solver_status, which is proved)"])
 
 
